@@ -114,6 +114,12 @@ def run(ctx, rep):
         rep.check(ok, "Q3", "C16|Q3|%s" % vname, cfg.where(fg), "Symbol::%s.get_range() must be the node's symbol_range (name range); extracted %r" % (vname, got),
                   sample={"variant": vname, "range": got})
 
+    # ---- Q0: the coordinates stored in the name ranges
+    rep.rule("Q0", "shared with C04 (P0, P1, P4): the line/column stored in every range is line-col's grapheme-cluster lookup (the unit editors and the documented API use) of the very offset the parser reported, on the caller's own text")
+    import c04
+    import c12
+    c04.position_rules(ctx, rep, "C16")
+    c12.content_untouched(ctx, rep, "P0", "C16")
     # ---- Q4: traversal obligations shared with C15
     import c15
     c15.symbol_walker_rules(ctx, rep, "C16")
